@@ -330,6 +330,8 @@ class Fn:
                     cls = "err"
                 elif prog is not None and prog.is_always_err(c):
                     cls = "err"         # `return Error::invalid(..)`: the callee never returns Ok
+                elif c.rsplit("::", 1)[-1] in CONVERTERS and payload["args"] and self._always_err_value(payload["args"][0]):
+                    cls = "err"         # `Err(e).read_err(..)`: the error converters keep an Err an Err
                 else:
                     cls = "fwd"
             else:
@@ -348,6 +350,23 @@ class Fn:
                     cls = "value"
             out.append((bi, si, cls, payload))
         return out
+
+    def _always_err_value(self, op, depth=0):
+        p = op_place(op)
+        if p is None or p["proj"] or depth > 4:
+            return False
+        ds = self.defs().get(p["local"], [])
+        if not ds or any(d[4]["proj"] for d in ds):
+            return False
+        for kind, payload, bi, si, place in ds:
+            if kind != "stmt":
+                return False
+            if payload["k"] == "aggregate" and payload["kind"].get("agg") == "adt" and payload["kind"]["adt"].endswith("result::Result") and payload["kind"]["variant"] == "Err":
+                continue
+            if payload["k"] == "use" and self._always_err_value(payload["op"], depth + 1):
+                continue
+            return False
+        return True
 
     def err_exit_blocks(self):
         """blocks in which _0 is set to an error (from_residual / Err aggregate)."""
